@@ -18,13 +18,6 @@ type nameRecordHeader struct {
 	recordLength uint16
 }
 
-func min(a, b int) int {
-	if a < b {
-		return a
-	}
-	return b
-}
-
 func paddingBytes32b(length int) int {
 	padding := length % 4
 	if padding > 0 {
@@ -45,58 +38,39 @@ func newHWAddress(data []byte) *NgEUIAddress {
 	return addr
 }
 
-func (r *NgReader) readIPAddr(nr *NgNameRecord, length int) error {
-	if _, err := r.readBytes(r.buf[:length]); err != nil {
-		return fmt.Errorf("could not read IP address: %v", err)
-	}
-	nr.Addr = newIPAddress(r.buf[:length])
-	return nil
-}
-
-func (r *NgReader) readHWAddr(nr *NgNameRecord, length int) error {
-	if _, err := r.readBytes(r.buf[:length]); err != nil {
-		return fmt.Errorf("could not read EUI address: %v", err)
-	}
-	nr.Addr = newHWAddress(r.buf[:length])
-	return nil
-}
-
 func (r *NgReader) readNameResolutionBlock() error {
 
-	for r.currentBlock.length > 0 {
+	for r.bodyLength() > 0 {
 		// Read name record header
-		if _, err := r.readBytes(r.buf[:4]); err != nil {
+		if err := r.readBody(r.buf[:4]); err != nil {
 			return fmt.Errorf("could not read NameRecord Header block length: %v", err)
 		}
-		r.currentBlock.length -= 4
 
 		var nrh = &nameRecordHeader{}
 		nrh.recordType = r.getUint16(r.buf[0:2])
 		nrh.recordLength = r.getUint16(r.buf[2:4])
 
-		var nameRecord = NgNameRecord{}
-		length := min(int(nrh.recordLength), int(r.currentBlock.length))
-		padding := paddingBytes32b(length)
+		if nrh.recordType == ngNameRecordEnd {
+			break
+		}
 
+		var nameRecord = NgNameRecord{}
+		length := int(nrh.recordLength)
+		padding := paddingBytes32b(length)
+		if uint32(length+padding) > r.bodyLength() {
+			return fmt.Errorf("name record length %d exceeds block length", length)
+		}
+
+		var addrLength int
 		switch nrh.recordType {
 		case ngNameRecordIPv4:
-			if err := r.readIPAddr(&nameRecord, 4); err != nil {
-				return fmt.Errorf("could not read IPv4 address: %v", err)
-			}
+			addrLength = 4
 		case ngNameRecordIPv6:
-			if err := r.readIPAddr(&nameRecord, 16); err != nil {
-				return fmt.Errorf("could not read IPv6 address: %v", err)
-			}
+			addrLength = 16
 		case ngNameRecordEUI48:
-			if err := r.readHWAddr(&nameRecord, 6); err != nil {
-				return fmt.Errorf("could not read EUI-48 address: %v", err)
-			}
+			addrLength = 6
 		case ngNameRecordEUI64:
-			if err := r.readHWAddr(&nameRecord, 8); err != nil {
-				return fmt.Errorf("could not read EUI-64 address: %v", err)
-			}
-		case ngNameRecordEnd:
-			goto DONE
+			addrLength = 8
 		default:
 			// discard record length
 			if err := r.discard(length + padding); err != nil {
@@ -104,17 +78,30 @@ func (r *NgReader) readNameResolutionBlock() error {
 			}
 			continue
 		}
-		r.currentBlock.length -= uint32(length)
-		length -= nameRecord.Addr.Len()
+		if length < addrLength {
+			return fmt.Errorf("name record length %d is too short for its address", length)
+		}
 
-		for length > 0 {
-			bstr, err := r.r.ReadBytes(0)
-			if err != nil {
-				return fmt.Errorf("could not read name: %v", err)
+		value, err := r.readBodyBytes(nil, length, 0)
+		if err != nil {
+			return fmt.Errorf("could not read name record: %v", err)
+		}
+		switch nrh.recordType {
+		case ngNameRecordIPv4, ngNameRecordIPv6:
+			nameRecord.Addr = newIPAddress(value[:addrLength])
+		default:
+			nameRecord.Addr = newHWAddress(value[:addrLength])
+		}
+
+		// the names are zero terminated
+		for names := value[addrLength:]; len(names) > 0; {
+			end := bytes.IndexByte(names, 0) + 1
+			if end == 0 {
+				end = len(names)
 			}
-			length -= len(bstr)
-			name := string(bytes.Trim(bstr, "\x00"))
+			name := string(bytes.Trim(names[:end], "\x00"))
 			nameRecord.Names = append(nameRecord.Names, name)
+			names = names[end:]
 		}
 		r.nameRecords = append(r.nameRecords, nameRecord)
 
@@ -124,7 +111,6 @@ func (r *NgReader) readNameResolutionBlock() error {
 		}
 	}
 
-DONE:
 	// discard everything after 'nrb_record_end' (including options)
 	return r.discard(int(r.currentBlock.length))
 }
